@@ -225,32 +225,7 @@ func runC11(c *Ctx) {
 	}
 	c.Check("C11.K1", "same-decoder", deepCalls(V) == 1 && applyJSON != nil && deepCalls(applyJSON) == 1, V.Pos(), "validator and composer (the ietf-json-patch handler and its helpers) both decode the patch with jsonpatch.DecodePatch, once")
 	// accessors address keys/services through the same constants
-	for _, acc := range []struct{ typ, m, konst string }{{"Document", "PublicKeys", pk}, {"DIDDocument", "PublicKeys", pk}, {"DIDDocument", "Services", svc}} {
-		f := c.Method("document", acc.typ, acc.m)
-		ok := false
-		var other []string
-		if f != nil {
-			// … and through nothing else: every read of the receiver is the lookup of that member (a fallback to another
-			// member — one the validator does not protect — lets a validated JSON patch supply the keys)
-			forEachInstr(f, func(in ssa.Instruction) {
-				if lk, isL := in.(*ssa.Lookup); isL {
-					if k, isK := lk.Index.(*ssa.Const); isK && c.Path(k, nil) == acc.konst && c.Path(lk.X, nil) == "$0" {
-						ok = true
-						return
-					}
-				}
-				var ops []*ssa.Value
-				for _, op := range in.Operands(ops) {
-					if *op == ssa.Value(f.Params[0]) {
-						if _, isDbg := in.(*ssa.DebugRef); !isDbg {
-							other = append(other, in.String())
-						}
-					}
-				}
-			})
-		}
-		c.Check("C11.K1", "accessor:"+acc.typ+"."+acc.m, ok && len(other) == 0, 0, fmt.Sprintf("%s.%s reads member %s of the document and nothing else of it %v", acc.typ, acc.m, acc.konst, other))
-	}
+	c.documentAccessorRule()
 	c.Min("C11.K1", 7)
 
 	// the JSON validator requires V; dispatch maps ietf-json-patch to it
@@ -301,9 +276,10 @@ func runC11(c *Ctx) {
 			return isC && cl.Call.IsInvoke() && cl.Call.Method.Name() == "ApplyPatches"
 		})
 		c.Check("C11.G1", "apply-"+typ+":validation-dominates-application", ok && n > 0, f.Pos(), "ApplyPatches is reachable only behind ValidateDelta(op.Delta) success", w...)
-		for _, cl := range callsNamed(f, "ApplyPatches") {
+		for _, tc := range c.treeCalls(f, nil, 0, func(cl *ssa.Call, env Env) bool { return callNamed(cl, "ApplyPatches") }) {
+			cl := tc.call
 			a := declArgs(cl)
-			c.Check("C11.G1", "apply-"+typ+":applies-validated-patches", c.Path(a[1], nil) == P+".Delta.Patches", cl.Pos(), "the applied patches are those of the validated delta: "+c.Path(a[1], nil))
+			c.Check("C11.G1", "apply-"+typ+":applies-validated-patches", c.Path(a[1], tc.env) == P+".Delta.Patches", cl.Pos(), "the applied patches are those of the validated delta: "+c.Path(a[1], tc.env))
 		}
 	}
 	if vd := c.Method(pParser, "Parser", "ValidateDelta"); vd != nil && pvValidate != nil {
@@ -477,4 +453,37 @@ func (c *Ctx) checkPointerMember(rule string, V *ssa.Function, K, P string, hp *
 		okAll, w = c.loopForall(V, l, cut, hp.Name)
 	}
 	c.Check(rule, key, okAll, V.Pos(), fmt.Sprintf("every operation's %q member is tested against %q on a rejecting edge (for-all; %d check site(s))", K, P, len(ss)), w...)
+}
+
+// documentAccessorRule (C11.K1; also run by C10: what the composer's handlers read as "the keys" / "the services" of the
+// document is the member the composer writes).
+func (c *Ctx) documentAccessorRule() {
+	svc, _ := c.ConstVal("document", "ServiceProperty")
+	pk, _ := c.ConstVal("document", "PublicKeyProperty")
+	for _, acc := range []struct{ typ, m, konst string }{{"Document", "PublicKeys", pk}, {"DIDDocument", "PublicKeys", pk}, {"DIDDocument", "Services", svc}} {
+		f := c.Method("document", acc.typ, acc.m)
+		ok := false
+		var other []string
+		if f != nil {
+			// … and through nothing else: every read of the receiver is the lookup of that member (a fallback to another
+			// member — one the validator does not protect — lets a validated JSON patch supply the keys)
+			forEachInstr(f, func(in ssa.Instruction) {
+				if lk, isL := in.(*ssa.Lookup); isL {
+					if k, isK := lk.Index.(*ssa.Const); isK && c.Path(k, nil) == acc.konst && c.Path(lk.X, nil) == "$0" {
+						ok = true
+						return
+					}
+				}
+				var ops []*ssa.Value
+				for _, op := range in.Operands(ops) {
+					if *op == ssa.Value(f.Params[0]) {
+						if _, isDbg := in.(*ssa.DebugRef); !isDbg {
+							other = append(other, in.String())
+						}
+					}
+				}
+			})
+		}
+		c.Check("C11.K1", "accessor:"+acc.typ+"."+acc.m, ok && len(other) == 0, 0, fmt.Sprintf("%s.%s reads member %s of the document and nothing else of it %v", acc.typ, acc.m, acc.konst, other))
+	}
 }
